@@ -175,7 +175,8 @@ class GraphQLError(Exception):
 
         # Compute list of blame nodes.
         if nodes and not isinstance(nodes, list):
-            nodes = [nodes]  # type: ignore
+            # a single node, or a collection of nodes that is not a list
+            nodes = list(nodes) if isinstance(nodes, tuple) else [nodes]  # type: ignore
         self.nodes = nodes or None  # type: ignore
         node_locations = (
             [node.loc for node in nodes if node.loc] if nodes else []  # type: ignore
